@@ -8,12 +8,12 @@ WRAPS = ["socket", "accept", "close", "fopen", "fclose", "opendir", "closedir", 
 # kind -> can the creation fail in a controlled way
 KINDS = {"tree": False, "hashtable": False, "list": False, "ini": True, "hash": True, "error": False, "dir": True, "sockaddr": True, "tcp": True,
          "tcp_timeout": False, "sock_intr": False, "from_fd": True, "accept_fail": False, "bind_used": False, "udp": False, "sem": True, "sem2": False, "shm": True, "shm_same": False, "shm_smaller": False,
-         "shmbuf": True, "thread": False, "thread_detached": False, "locks": False, "loader": True, "profiler": False, "string": False}
+         "shmbuf": True, "thread": False, "thread_named": False, "thread_detached": False, "locks": False, "loader": True, "profiler": False, "string": False}
 
 
 def run(ctx):
     rng = ctx.rng
-    prefix = "vf%d" % os.getpid()
+    prefix = "vf%d_names_that_share_a_long_common_prefix" % os.getpid()      # names differ only in their last characters
     ctx.design_must_hold("sys/ResLedgerMC.tla", expect_actions=["CreateOK", "CreateFail"])
     # behaviours: the design-level graph over the concrete kinds, two objects at a time (all ordered pairs, ok / failing, both release orders)
     cfg = ctx.path("ResLedgerPairs.cfg")
